@@ -366,7 +366,7 @@ func c08Derived(c *Ctx) {
 			return true
 		})
 		if !found {
-			c.Bad("R8.3", "'"+added+"' is derived only under its condition", fs.Pos(), "'"+added+"' is never derived: operators cannot record / presenters cannot make tokens")
+			c.Bad("R8.3", "'"+added+"' is derived only under its condition", fs.Pos(), "%s", "'"+added+"' is never derived: operators cannot record / presenters cannot make tokens")
 		}
 	}
 	check("record", "op", "AllowRecording")
